@@ -418,8 +418,28 @@ func main() {
 			rb, _ := json.Marshal(map[string]any{"race_report": tailN(log[i:], 60)})
 			raceViolations = append(raceViolations, &violation{Key: "data-race:" + site, Msg: fmt.Sprintf("the race detector reported %d data race(s) in the free-running pass, first at %s", nraces, site), Replay: rb, Count: int64(nraces)})
 		} else if rerr != nil {
-			fmt.Fprintf(os.Stderr, "BROKEN HARNESS: race pass failed: %v\n%s\n", rerr, tail(log, 40))
-			exit(2)
+			// a panic inside the code under test (not in the harness or the shims) during the
+			// free-running pass is a failure of the run, not of the harness
+			site := ""
+			if i := strings.Index(log, "panic: "); i >= 0 {
+				for _, l := range strings.Split(log[i:], "\n") {
+					l = strings.TrimSpace(l)
+					if strings.HasPrefix(l, "/repo/") {
+						if strings.Contains(l, "zz_verif_") || strings.Contains(l, "verifshim") {
+							break // the first actionlint frame is the harness itself
+						}
+						site = strings.TrimPrefix(strings.Fields(l)[0], "/repo/")
+						break
+					}
+				}
+			}
+			if site == "" {
+				fmt.Fprintf(os.Stderr, "BROKEN HARNESS: race pass failed: %v\n%s\n", rerr, tail(log, 40))
+				exit(2)
+			}
+			i := strings.Index(log, "panic: ")
+			rb, _ := json.Marshal(map[string]any{"race_pass_panic": tailN(log[i:], 40)})
+			raceViolations = append(raceViolations, &violation{Key: "failure:free-running-pass:" + site, Msg: "the free-running multi-file pass panicked at " + site + ": " + tailN(log[i:], 3), Replay: rb, Count: 1})
 		}
 	}
 
